@@ -172,7 +172,7 @@ def check_C09(tier):
     for (fam, fut) in FAMILIES:
         base += sc.no_receivers("C09n", fam, caps=(1,), fut=fut) + sc.traffic("C09t", fam, fut=fut, caps=(1,))[:2]
     seqs = []
-    for s_ in sc.with_epoch_pending(base):
+    for s_ in sc.with_epoch_pending(base) + sc.with_epoch_late(base):
         flat = []
         for ph in s_["phases"]:
             for th in ph:
@@ -482,7 +482,9 @@ def check_C01(tier):
             sc.uni_traffic("C01", "bcast", caps=caps) + sc.uni_traffic("C01", "mpmc", caps=caps) +
             sc.traffic("C01", "bcast", fut=True, caps=caps[:2]) + sc.traffic("C01", "mpmc", fut=True, caps=caps[:1]) +
             sc.add_stream_scn("C01a", caps=caps[:2]) + sc.population("C01p", "bcast", caps=caps[:1]))
-    return generic_check("C01", tier, ["C01C02", "C01C06", "C01C07"], scns, plans_for(tier), RULE_CONC + RULE_IMPL,
+    # a consumer that keeps receiving but is never handed a value that was accepted for its stream (blocked or
+    # parked for ever: ids C08 / C14 and the joint ids) has not been delivered that value either
+    return generic_check("C01", tier, ["C01C02", "C01C06", "C01C07", "C08", "C14", "C07C08", "C07C14"], scns, plans_for(tier), RULE_CONC + RULE_IMPL,
                          models=[impl_model_stage(["spsc", "mpsc", "spmc", "bcast2", "view", "adddouble"])])
 
 
@@ -582,9 +584,12 @@ def check_C07(tier):
     caps = caps_for(tier)
     scns = (sc.disconnect("C07", "bcast", caps=caps) + sc.disconnect("C07", "mpmc", caps=caps) +
             sc.disconnect("C07", "bcast", caps=caps[:2], fut=True) + sc.disconnect("C07", "mpmc", caps=caps[:1], fut=True) +
-            sc.blocking("C07b", "bcast", caps=caps[:1], waits=("busy", "block00")))
+            sc.blocking("C07b", "bcast", caps=caps[:1], waits=("busy", "block00")) +
+            # stream tasks that wait for their notification: the end of the stream must reach a task that parks
+            # while the last sender is leaving
+            sc.futures_scn("C07f", "bcast", caps=caps[:2]) + sc.futures_scn("C07f", "mpmc", caps=caps[:1]))
     return generic_check("C07", tier, ["C07", "C07C08", "C07C14", "C01C07"], scns, plans_for(tier), RULE_CONC + RULE_IMPL,
-                         models=[impl_model_stage(["disc", "blockdisc", "sibdrop"])])
+                         models=[impl_model_stage(["disc", "blockdisc", "sibdrop", "fut_spsc", "fut_2sinks"])])
 
 
 def check_C08(tier):
@@ -607,7 +612,8 @@ def check_C10(tier):
             sc.add_vs_remove("C10x", caps=caps[:2]) +
             sc.added_stream_waits("C10w", caps=caps[:2]))
     # a futures stream created by add_stream that is never woken does not "deliver every value from there on"
-    return generic_check("C10", tier, ["C01C02", "C03", "C06", "C01C06", "C01C07", "C14", "C07C14"], scns, plans_for(tier), RULE_CONC + RULE_IMPL,
+    # a panic of a sender or of another consumer provoked by add_stream is a side effect on the existing streams (C09)
+    return generic_check("C10", tier, ["C01C02", "C03", "C06", "C01C06", "C01C07", "C14", "C07C14", "C09"], scns, plans_for(tier), RULE_CONC + RULE_IMPL,
                          models=[impl_model_stage(["addsole", "adddouble", "addshared"], expect_fail=("addshared_1",))])
 
 
@@ -621,8 +627,14 @@ def check_C11(tier):
 
 def check_C12(tier):
     caps = caps_for(tier)
-    scns = sc.population("C12", "bcast", caps=caps) + sc.population("C12", "mpmc", caps=caps)
-    return generic_check("C12", tier, ["C01C02", "C03", "C06", "C04", "C05", "C04C05", "C01C06", "C01C07"], scns, plans_for(tier),
+    scns = (sc.population("C12", "bcast", caps=caps) + sc.population("C12", "mpmc", caps=caps) +
+            # blocked consumers and parked tasks next to handles that come and go: a value that is never delivered
+            # because somebody is never woken is a visible effect too (ids C08 / C14 and the joint ids)
+            sc.population_blocking("C12b", "bcast", caps=caps[:2]) + sc.population_blocking("C12b", "mpmc", caps=caps[:1]) +
+            [s_ for s_ in sc.futures_scn("C12f", "bcast", caps=caps[:2]) if "sibleave" in s_["name"] or "alive" in s_["name"]] +
+            [s_ for s_ in sc.blocking("C12w", "bcast", caps=caps[:1], waits=("block00",)) if s_["name"].endswith(("-7", "-8"))])
+    return generic_check("C12", tier, ["C01C02", "C03", "C06", "C04", "C05", "C04C05", "C01C06", "C01C07", "C08", "C14", "C07C08",
+                                       "C07C14"], scns, plans_for(tier),
                          RULE_CONC + RULE_IMPL, models=[impl_model_stage(["popsend", "poprecv", "sibdrop", "roundtrip"])])
 
 
@@ -631,7 +643,10 @@ def check_C13(tier):
     scns = []
     for (fam, fut) in FAMILIES:
         scns += sc.no_receivers("C13", fam, caps=caps[:2], fut=fut)
-    scns += sc.with_epoch_pending(scns)
+    base13 = list(scns)
+    scns += sc.with_epoch_pending(base13)
+    # ... and with a reclamation cycle that starts only after the last receiver has gone
+    scns += sc.with_epoch_late([s_ for s_ in base13 if "-c1-" in s_["name"]])
     depth = 4 if tier == "quick" else 5
     gens = []
     for (fam, fut) in FAMILIES:
@@ -762,7 +777,10 @@ def check_C15(tier):
                               "into_single", "into_multi", "transform"] + (["add_stream"] if fam == "bcast" else [])))
         gens.append(dict(family=fam, fut=True, cap=2, depth=40, simulate=(100 if tier == "quick" else 1500, 40),
                          ops=alphabet(fam, True), max_senders=3, max_streams=3, max_hps=2))
-    return generic_check("C15", tier, ["C15", "C01C02", "C03", "C05", "C06", "C07", "C09", "C13", "C14", "C18", "C07C14", "C01C06", "C01C07"], scns,
+    # every handle in these scenarios is a futures handle: a direct recv that stays blocked where the plain one
+    # returns (C08 / C07C08) does not "behave like its plain counterpart" either
+    return generic_check("C15", tier, ["C15", "C01C02", "C03", "C05", "C06", "C07", "C09", "C13", "C14", "C18", "C07C14", "C01C06", "C01C07",
+                                       "C08", "C07C08"], scns,
                          plans_for(tier), RULE_CONC +
                          "; plus sequential histories mixing start_send/poll_complete/poll with the direct methods "
                          "generated from MQAbsGen (including polls on a fresh empty queue); a poll/start_send that does "
